@@ -253,6 +253,14 @@ def run_failing(env, s):
     elif kind == "inplace_fpe":
         with np.errstate(all="raise"):
             t /= 0.0
+    elif kind == "op_where_mask":
+        # the caller's boolean condition array must not stay locked when where() fails
+        mask = np.ones(t.shape, dtype=bool)
+        try:
+            mg.where(mask, t, np.ones((7, 11, 13)) if t.shape != (7, 11, 13) and t.size > 1 else "abc")
+        finally:
+            if not mask.flags.writeable:
+                OBSERVE_ERRORS.append("a failing where() left the caller's condition array read-only")
     elif kind == "inplace_value_error_in_value":
         t[...] = mg.reshape(t, (t.size + 1,))
     else:
